@@ -7,14 +7,14 @@ Import ListNotations.
 Lemma restored_and_repeat
   (V Q A GV Val : Type) (dV : V) (dQ : Q) (key_of : A -> option nat) (dim_ok exc_ok : A -> bool)
   (pix_shape : A -> list nat) (post : list GV -> Val) (F : nat -> nat -> ginput V Q -> gres GV)
-  (p : list instr) (c : call) (sch : sched) (cnt : nat) (st : list (obj V Q A)) :
-  prog_ok false false p = true -> wf_store V Q A st ->
+  (w : wrapper) (p : list instr) (c : call) (sch : sched) (cnt : nat) (st : list (obj V Q A)) :
+  wrapper_ok w p = true -> wf_store V Q A st ->
   r_store V Q A Val (getBH_level2 V Q A GV Val dV dQ key_of dim_ok exc_ok pix_shape post F
-                                  WFinallyTrim p c sch cnt st) = st /\
-  getBH_level2 V Q A GV Val dV dQ key_of dim_ok exc_ok pix_shape post F WFinallyTrim p c sch cnt
+                                  w p c sch cnt st) = st /\
+  getBH_level2 V Q A GV Val dV dQ key_of dim_ok exc_ok pix_shape post F w p c sch cnt
     (r_store V Q A Val (getBH_level2 V Q A GV Val dV dQ key_of dim_ok exc_ok pix_shape post F
-                                     WFinallyTrim p c sch cnt st))
-  = getBH_level2 V Q A GV Val dV dQ key_of dim_ok exc_ok pix_shape post F WFinallyTrim p c sch cnt st.
+                                     w p c sch cnt st))
+  = getBH_level2 V Q A GV Val dV dQ key_of dim_ok exc_ok pix_shape post F w p c sch cnt st.
 Proof.
   intros Hp Hw. split.
   - apply state_restored; assumption.
@@ -82,6 +82,15 @@ Proof.
                       (seq 25 12) = true) by (vm_compute; reflexivity).
   rewrite forallb_forall in H. apply H, Hpc.
 Qed.
+
+(* both repaired shapes are accepted by the static check, the old one is not *)
+Definition prog_trim : list instr := firstn 24 prog_prefix ++ IRecord :: skipn 24 prog_prefix.
+Definition prog_restore : list instr := firstn 24 prog_prefix ++ IRecordOrig :: skipn 24 prog_prefix.
+Lemma shapes_accepted :
+  wrapper_ok WFinallyTrim prog_trim = true /\ wrapper_ok WFinallyRestore prog_restore = true /\
+  wrapper_ok WPlain prog_prefix = false /\ wrapper_ok WFinallyTrim prog_prefix = false /\
+  wrapper_ok WFinallyTrim prog_restore = false /\ wrapper_ok WFinallyRestore prog_trim = false.
+Proof. vm_compute. repeat split. Qed.
 
 (* the same inputs under the current shape of the code: restored *)
 Lemma current_shape_witness :
